@@ -20,7 +20,7 @@ fn gen(seed: u64, idx: u64, _tier: Tier) -> Plan {
     let example = idx % 17 == 16;
     let mut plan = Plan::new("C15", if example { "c15.example_cfg" } else { "c15.option_space" }, seed);
     let mut s = ServerSpec::basic(Mode::F, &random_seed_hex(&mut rng));
-    world_knobs(&mut rng, &mut plan, idx % 3 == 1);
+    world_knobs(&mut rng, &mut plan, (idx / 16) % 3 == 1);
     // start-up under stalled tasks, spurious polls and late timers; the path itself stays loss-free
     // so that the request and health oracles remain exact
     {
@@ -70,6 +70,17 @@ fn gen(seed: u64, idx: u64, _tier: Tier) -> Plan {
         plan.world.cores = s.workers as usize;
         s.raw_text = Some(text);
     }
+    // environment fault (a quarter of the non-example runs): another program already holds the
+    // health port or the UDP port. The server cannot serve then; what the statement still demands
+    // is that it does not keep running with fewer live workers than configured.
+    if !example && (idx / 16) % 4 == 2 {
+        plan.scenario = "c15.port_held_by_another_program".into();
+        if s.health_port.is_some() && rng.chance(2, 3) {
+            plan.step(0, Action::ForeignTcpListen { port: s.health_port.unwrap() as u16 });
+        } else {
+            plan.step(0, Action::ForeignUdpBind { port: s.port as u16 });
+        }
+    }
     let workers = s.workers;
     let health = s.health_port.is_some();
     plan.server = Some(s);
@@ -77,7 +88,7 @@ fn gen(seed: u64, idx: u64, _tier: Tier) -> Plan {
     let mut ctr = seed ^ 0xc15;
     // in the fault profile start-up may take long (stalled tasks): traffic begins after the
     // fault window, which covers start-up only
-    let faulty_boot = idx % 3 == 1;
+    let faulty_boot = (idx / 16) % 3 == 1;
     let mut t = if faulty_boot { 600_000u64 } else { 30_000u64 };
     if health && rng.chance(1, 2) {
         // two connects before the workers can possibly poll
@@ -126,6 +137,19 @@ fn check(plan: &Plan, out: &RunOut) -> CheckOut {
     let configured = spec.workers as usize;
     let health = if spec.health_port.is_some() { "set" } else { "none" };
     let wclass = if configured > 1 { ">1" } else { "1" };
+    if plan.scenario == "c15.port_held_by_another_program" {
+        // the only demand: no lingering with fewer live workers than configured (2 simulated s
+        // after start-up at the latest); exiting is the correct outcome
+        co.probe("port_held_by_another_program");
+        if b.exit.is_none() && b.live_workers < configured && w.now >= 2 * dsim::SEC {
+            co.violate("C15", "fewer_workers_than_configured", format!("C15|lingering_after_failed_startup|workers{}", wclass), format!("a port was held by another program; the server keeps running with {} live workers of {} configured (panics: {:?})", b.live_workers, configured, b.panics.iter().map(|p| crate::view::short_site(&p.1)).collect::<Vec<_>>()));
+        }
+        if b.exit.is_some() {
+            co.probe("failed_startup_exited");
+        }
+        co.sample = Some(serde_json::json!({"scenario": plan.scenario, "seed": plan.seed, "workers": configured, "exit": b.exit, "live_workers": b.live_workers, "panics": b.panics.len(), "verdict": if co.violations.is_empty() { "ok".to_string() } else { co.violations[0].signature.clone() }}));
+        return co;
+    }
     // start-up outcome
     for (name, msg, loc) in &b.panics {
         co.violate(
